@@ -265,3 +265,19 @@ Proof.
     vm_compute in E. injection E as <-. vm_compute in E'. injection E' as <-. repeat split; reflexivity.
   - vm_compute in E. injection E as <-. vm_compute in E'. discriminate.
 Qed.
+
+(* ---------------------------------------------------------------- the driver level stays inside the small-step system *)
+Lemma quiesce_reach fp gr fuel : forall s, reach fp s -> reach fp (quiesce fp gr fuel s).
+Proof.
+  induction fuel as [|f IH]; intros s R; simpl; [assumption|].
+  destruct (internal_label gr s) as [l|]; [|assumption].
+  destruct (step fp s l) as [s'|] eqn:E; [|assumption]. apply IH. econstructor; eauto.
+Qed.
+
+Theorem drive_reach fp gr s d : reach fp s -> reach fp (fst (drive fp gr s d)).
+Proof.
+  intros R. unfold drive. destruct (drive1 fp s d) as [s'|] eqn:E; cbn [fst]; [|assumption].
+  apply quiesce_reach. destruct d; cbn [drive1] in E;
+    try (eapply run_reach; eauto; fail); try (econstructor; eauto; fail).
+  destruct (step fp s LOffStop) eqn:E2; injection E as <-; [econstructor; eauto|assumption].
+Qed.
